@@ -11,10 +11,14 @@
                   d, n, h, G, bytes, k, c      "Ed25519" "Ed448"  (RFC 8032 models; the same the library exposes)
      kind = "mt"  Montgomery, x only   v^2 = u^3 + A u^2 + u       fields p, a24 = (A - 2) / 4, n, h, G = [x], bytes, bits, k, c
                   "Curve25519" "Curve448"   (RFC 7748)
-   n = order of G, h = cofactor, bytes = length of an encoded coordinate, p = 2^k - c where k, c are given (fold reduction).
+   n = order of G, h = cofactor, bytes = length of an encoded coordinate.  Every record has k, c, cs, c0: where k > 0, p = 2^k - c and
+   reductions modulo p are COMPUTED by folding (EcRed; Ed25519/Curve25519: c = 19, Ed448/Curve448: c = 2^224 + 1 = 2^cs + c0,
+   P-521: c = 1); k = 0 (the other Weierstrass primes): reductions are checked against claimed floor quotients (EcModQ).
    Parameters: OpenSSL 3.5 `ecparam -param_enc explicit` for the Weierstrass curves, RFC 7748 / RFC 8032 text for the others,
-   transcribed at authoring time; each generator is ASSUMEd to satisfy its curve equation, n * G = neutral is ASSUMEd here for
-   the small curves and Curve25519/Curve448 and in ECGroupKat for the rest.  p is prime on every curve (standards; not re-proved).
+   transcribed at authoring time; each generator is ASSUMEd to satisfy its curve equation here; n * G = neutral and (n - 1) * G = -G
+   (link by link) and the RFC 7748 vectors are ASSUMEd in the modules ECGroupKatOrderA/B/C, ECGroupKatX25519, ECGroupKatX448,
+   ECGroupKatX448Dh (minutes of evaluation; run by `./check setup`).  p is prime on every curve (standards; not re-proved).
+   USE `EC == INSTANCE ECGroup` (not EXTENDS) in trace specifications: TLC then does not re-evaluate the ASSUMEs in every run.
 
    POINTS are records [x |-> nat, y |-> nat] with coordinates < p.  The neutral element is EcNeutral(C): (0, 1) on Edwards
    curves and -- the library's convention for the point at infinity, legitimate because b # 0 -- (0, 0) on Weierstrass curves.
@@ -32,6 +36,7 @@
         Edwards: unified law  x3 (1 + t) = x1 y2 + x2 y1,  y3 (1 - t) = y1 y2 - a x1 x2,  t = d x1 x2 y1 y2  (mod p); no
           witness: reductions modulo 2^255 - 19 and 2^448 - 2^224 - 1 are computed by folding (EcRed).  1 + t, 1 - t # 0 is
           checked ("domain" otherwise; cannot happen for points on these complete curves), so x3, y3 are determined.
+     EcEdLowOrder(C, P): P has order 1, 2, 4 or 8 (Edwards curves; no witness)
      EcNeg(C, P)    EcOnCurve(C, P, w) in {"ok", "no", "witness"}  (w = [q1, q2] floor quotients of y^2 and x^3 + a x + b;
                     ignored on Edwards curves)     EcOnCurveSlow(C, P) without witness (long division; for ASSUMEs)
      EcMulLinks(C, k, P, links) = [st, at, pt]     is links[Len].r = k * P ?  Double-and-add from the top bit of k:
@@ -40,10 +45,14 @@
           holds and their number is exact, pt = k * P.  Otherwise at = the first link that fails, st = "differs" | "witness" |
           "domain" | "length".  A wrong witness or a wrong intermediate point can only make the chain fail.
      EcMontLadder(C, k, u, bits)  = <<X, Z>>, the RFC 7748 ladder over bits bits of k on the u-coordinate u mod p (computed,
-          no witness);  EcMontIsX(C, XZ, x): x < p is the affine value X / Z;   EcXdhIs(C, kbytes, ubytes, outbytes): the RFC
-          7748 function X25519 / X448 on byte strings (clamping, masking of the top bit of u on Curve25519, output 0 for Z = 0).
-   Cost per TLC worker: Weierstrass link 25 ms at 256 bits (7 products), 4 ms at 112 bits; Edwards link 45 ms at 255 bits;
-   ladder step 60 ms at 255 bits (X25519: 15 s), 80 ms at 448 bits (X448: 36 s). *)
+          no witness);  EcMontMul(C, k, u) = <<X, Z>>: k * P by the group law for any natural k, u (the ladder over the bits of k;
+          u = 0 mod p, where the ladder degenerates to <<0, 0>>, decided directly: P for odd k, neutral for even k);
+          EcMontIsInf(XZ), EcMontDegenerate(XZ), EcMontIsX(C, XZ, x): x < p is the affine value X / Z;
+          EcClamp, EcDecodeU, EcXdh(C, kbytes, ubytes) = <<X, Z>>, EcXdhIs(C, kbytes, ubytes, outbytes): the RFC 7748 function
+          X25519 / X448 on byte strings (clamping, masking of the top bit of u on Curve25519, output 0 for Z = 0).
+   Cost per TLC worker (measured): Weierstrass link 5 ms at 112 bits, 14 ms at 256, 22 ms at 384, 30 ms at 521; Edwards link 15 ms
+   at 255 bits, 45 ms at 448; ladder step 25 ms at 255 bits (X25519: 7 s), 40 ms at 448 bits (X448: 20 s).  Chains and ladders are
+   walked by BALANCED recursion: a recursion as deep as the chain makes every parameter access cost its depth in TLC. *)
 EXTENDS BigNat
 
 \* ------------------------------------------------------------------ field helpers (operands < p)
@@ -57,12 +66,16 @@ EcModQ(x, p, q) == LET qp == BnMul(q, p) IN
 \* x mod 2^k, limb-wise
 EcLow(x, k) == LET j == k \div 12  r == k % 12 IN
    IF Len(x) <= j THEN x ELSE BnNorm(SubSeq(x, 1, j) \o (IF r = 0 THEN <<>> ELSE <<x[j + 1] % (2 ^ r)>>))
-RECURSIVE EcFold(_,_,_)
+\* hi * c for c = 2^k - p: a plain product, or -- when c = 2^cs + c0 with a one-limb c0 (Curve448: 2^224 + 1) -- a shift and a short product
+EcFoldHi(C, hi) == IF C.cs = 0 THEN BnMul(hi, C.c) ELSE BnAdd(BnShl(hi, C.cs), BnMul(hi, C.c0))
+RECURSIVE EcFold(_,_)
 \* x mod (2^k - c) up to one subtraction:  hi 2^k + lo == hi c + lo
-EcFold(x, k, c) == IF BnBitLen(x) <= k THEN x ELSE EcFold(BnAdd(EcLow(x, k), BnMul(BnShr(x, k), c)), k, c)
-\* x mod p for p = 2^k - c (curves with fields k, c), computed
-EcRed(C, x) == LET y == EcFold(x, C.k, C.c) IN IF BnCmp(y, C.p) >= 0 THEN BnSub(y, C.p) ELSE y
+EcFold(C, x) == IF BnBitLen(x) <= C.k THEN x ELSE EcFold(C, BnAdd(EcLow(x, C.k), EcFoldHi(C, BnShr(x, C.k))))
+\* x mod p for p = 2^k - c (curves with k > 0), computed
+EcRed(C, x) == LET y == EcFold(C, x) IN IF BnCmp(y, C.p) >= 0 THEN BnSub(y, C.p) ELSE y
 EcMulM(C, a, b) == EcRed(C, BnMul(a, b))
+\* x mod p on any curve: folded where the prime allows it (the claimed quotient is then ignored), else from the claimed floor quotient
+EcModW(C, x, q) == IF C.k > 0 THEN <<TRUE, EcRed(C, x)>> ELSE EcModQ(x, C.p, q)
 \* x mod p for any p by binary long division (slow: one shift, comparison and subtraction per bit; for ASSUMEs only)
 RECURSIVE EcModSlowRun(_,_,_,_)
 \* shifts hi, hi - 1, ..., lo; balanced recursion (deep recursion with big parameters is slow in TLC)
@@ -85,20 +98,20 @@ EcWsBad(st) == [st |-> st, pt |-> EcPt(<<>>, <<>>)]
 \* x3, y3 from the slope l (already certified)
 EcWsFromSlope(C, P, sumx, w) ==
    LET p == C.p
-       m2 == EcModQ(BnAdd(BnSqr(w.l), sumx), p, w.q2)
+       m2 == EcModW(C, BnAdd(BnSqr(w.l), sumx), w.q2)
    IN IF ~m2[1] THEN EcWsBad("witness") ELSE
       LET x3 == m2[2]
-          m3 == EcModQ(BnAdd(BnMul(w.l, EcSubM(P.x, x3, p)), BnSub(p, P.y)), p, w.q3)
+          m3 == EcModW(C, BnAdd(BnMul(w.l, EcSubM(P.x, x3, p)), BnSub(p, P.y)), w.q3)
       IN IF ~m3[1] THEN EcWsBad("witness") ELSE [st |-> "ok", pt |-> EcPt(x3, m3[2])]
 EcWsChord(C, P, Q, w) ==      \* P.x # Q.x
    LET p == C.p
-       m1 == EcModQ(BnMul(EcSubM(Q.x, P.x, p), w.l), p, w.q1)
+       m1 == EcModW(C, BnMul(EcSubM(Q.x, P.x, p), w.l), w.q1)
    IN IF ~EcIsElem(w.l, p) \/ ~m1[1] \/ m1[2] # EcSubM(Q.y, P.y, p) THEN EcWsBad("witness")
       ELSE EcWsFromSlope(C, P, BnAdd(BnSub(p, P.x), BnSub(p, Q.x)), w)
 EcWsTangent(C, P, w) ==       \* P.y # 0
    LET p == C.p
-       m0 == EcModQ(BnAdd(BnMul(<<3>>, BnSqr(P.x)), C.a), p, w.q0)
-       m1 == EcModQ(BnMul(BnShl(P.y, 1), w.l), p, w.q1)
+       m0 == EcModW(C, BnAdd(BnMul(<<3>>, BnSqr(P.x)), C.a), w.q0)
+       m1 == EcModW(C, BnMul(BnShl(P.y, 1), w.l), w.q1)
    IN IF ~EcIsElem(w.l, p) \/ ~m0[1] \/ ~m1[1] \/ m0[2] # m1[2] THEN EcWsBad("witness")
       ELSE EcWsFromSlope(C, P, BnShl(BnSub(p, P.x), 1), w)
 \* [st |-> "ok" | "witness" | "domain", pt |-> P + Q when st = "ok"]
@@ -112,8 +125,8 @@ EcWsSum(C, P, Q, w) ==
    ELSE EcWsBad("domain")
 EcWsOnCurve(C, P, w) ==
    LET p == C.p
-       l == EcModQ(BnSqr(P.y), p, w.q1)
-       r == EcModQ(BnAdd(BnAdd(BnMul(BnSqr(P.x), P.x), BnMul(C.a, P.x)), C.b), p, w.q2)
+       l == EcModW(C, BnSqr(P.y), w.q1)
+       r == EcModW(C, BnAdd(BnAdd(BnMul(BnSqr(P.x), P.x), BnMul(C.a, P.x)), C.b), w.q2)
    IN IF ~l[1] \/ ~r[1] THEN "witness" ELSE IF l[2] = r[2] THEN "ok" ELSE "no"
 
 \* ------------------------------------------------------------------ twisted Edwards
@@ -130,6 +143,8 @@ EcEdSumHolds(C, P, Q, R) ==
 EcEdOnCurve(C, P) ==
    LET p == C.p  xx == EcMulM(C, P.x, P.x)  yy == EcMulM(C, P.y, P.y)
    IN (IF C.aneg THEN EcSubM(yy, xx, p) ELSE EcAddM(yy, xx, p)) = EcAddM(<<1>>, EcMulM(C, C.d, EcMulM(C, xx, yy)), p)
+\* the points of order 1, 2, 4 and (a = -1: Ed25519, cofactor 8) 8: x = 0; y = 0; 2P has y = 0, i.e. y^2 = a x^2
+EcEdLowOrder(C, P) == P.x = <<>> \/ P.y = <<>> \/ (C.aneg /\ EcAddM(EcMulM(C, P.x, P.x), EcMulM(C, P.y, P.y), C.p) = <<>>)
 
 \* ------------------------------------------------------------------ the law on "ws" and "ed" curves
 EcSum(C, P, Q, R, w) ==
@@ -226,7 +241,11 @@ EcSecp112r1 ==
    n |-> <<453,1622,4012,653,3702,3637,3938,683,2940,13>>,
    h |-> 1,
    G |-> [x |-> <<152,3119,1529,1717,3815,1445,2457,1827,2376>>, y |-> <<1280,3959,3599,992,162,588,3975,3674,2204,10>>],
-   bytes |-> 14]
+   bytes |-> 14,
+   k |-> 0,
+   c |-> <<>>,
+   cs |-> 0,
+   c0 |-> <<>>]
 EcSecp128r1 ==
   [name |-> "secp128r1",
    kind |-> "ws",
@@ -236,7 +255,11 @@ EcSecp128r1 ==
    n |-> <<277,906,2960,209,1443,7,0,0,4094,4095,255>>,
    h |-> 1,
    G |-> [x |-> <<2950,709,3237,1543,3112,720,2459,2232,1874,511,22>>, y |-> <<2691,3799,733,2601,45,316,4075,1466,2105,1452,207>>],
-   bytes |-> 16]
+   bytes |-> 16,
+   k |-> 0,
+   c |-> <<>>,
+   cs |-> 0,
+   c0 |-> <<>>]
 EcP192 ==
   [name |-> "P-192",
    kind |-> "ws",
@@ -246,7 +269,11 @@ EcP192 ==
    n |-> <<2097,3362,436,3227,1131,865,3832,2461,4095,4095,4095,4095,4095,4095,4095,4095>>,
    h |-> 1,
    G |-> [x |-> <<18,4081,3458,175,1279,15,392,1082,235,3058,1660,2319,48,235,3496,392>>, y |-> <<2065,1940,286,1914,1017,3415,1229,1714,493,257,2147,3495,4040,2399,2347,113>>],
-   bytes |-> 24]
+   bytes |-> 24,
+   k |-> 0,
+   c |-> <<>>,
+   cs |-> 0,
+   c0 |-> <<>>]
 EcP224 ==
   [name |-> "P-224",
    kind |-> "ws",
@@ -256,7 +283,11 @@ EcP224 ==
    n |-> <<2621,1474,1372,660,989,993,2288,3595,1698,4081,4095,4095,4095,4095,4095,4095,4095,4095,255>>,
    h |-> 1,
    G |-> [x |-> <<3361,1473,1553,2061,1074,547,529,1388,467,60,2378,2315,531,2035,1215,1723,3261,224,183>>, y |-> <<3636,7,2437,2073,1237,1604,1863,1440,1440,1079,1741,3582,3106,4020,1827,2911,904,886,189>>],
-   bytes |-> 28]
+   bytes |-> 28,
+   k |-> 0,
+   c |-> <<>>,
+   cs |-> 0,
+   c0 |-> <<>>]
 EcP256 ==
   [name |-> "P-256",
    kind |-> "ws",
@@ -266,7 +297,11 @@ EcP256 ==
    n |-> <<1361,1586,764,3244,953,2127,1950,2673,2733,3695,4028,4095,4095,4095,4095,4095,0,0,3840,4095,4095,15>>,
    h |-> 1,
    G |-> [x |-> <<662,2444,1496,916,1185,2575,2867,734,3457,55,631,1039,932,3670,3302,3979,583,708,737,3359,2839,6>>, y |-> <<501,3061,2103,1030,2998,3308,350,1715,855,3299,1579,2529,3087,1191,2027,2286,3995,423,766,1070,4067,4>>],
-   bytes |-> 32]
+   bytes |-> 32,
+   k |-> 0,
+   c |-> <<>>,
+   cs |-> 0,
+   c0 |-> <<>>]
 EcP384 ==
   [name |-> "P-384",
    kind |-> "ws",
@@ -276,7 +311,11 @@ EcP384 ==
    n |-> <<2419,3154,2764,406,3308,1966,167,1163,3506,416,3928,733,1079,2079,845,3190,4095,4095,4095,4095,4095,4095,4095,4095,4095,4095,4095,4095,4095,4095,4095,4095>>,
    h |-> 1,
    G |-> [x |-> <<2743,1888,2162,1507,2644,1731,1321,3061,605,47,2133,675,596,3592,1857,1439,2968,2681,651,950,3613,1862,173,3890,1822,2844,1934,83,3723,555,1994,2728>>, y |-> <<3679,3744,3216,471,2627,2519,3713,471,462,1547,10,2956,1520,315,2609,3741,1148,2465,3368,475,2292,671,732,2345,2239,2537,3933,710,1574,1193,2014,865>>],
-   bytes |-> 48]
+   bytes |-> 48,
+   k |-> 0,
+   c |-> <<>>,
+   cs |-> 0,
+   c0 |-> <<>>]
 EcP521 ==
   [name |-> "P-521",
    kind |-> "ws",
@@ -286,7 +325,11 @@ EcP521 ==
    n |-> <<1033,902,3729,2929,2927,2795,3143,2201,2488,2908,59,2653,1801,1167,3073,2044,1643,761,959,2168,390,4005,4095,4095,4095,4095,4095,4095,4095,4095,4095,4095,4095,4095,4095,4095,4095,4095,4095,4095,4095,4095,4095,31>>,
    h |-> 1,
    G |-> [x |-> <<3430,3675,450,2019,2430,2495,2626,2134,961,1163,3635,2701,767,634,3521,4065,2344,3701,2031,1511,331,2986,3389,1716,3936,650,504,2898,1343,912,1153,2502,1090,2395,1571,3254,3646,3289,1257,64,1719,2272,1669,12>>, y |-> <<1616,3350,1695,2375,2238,1032,706,2599,134,967,309,118,4013,19,185,3157,1600,3906,2398,1833,2030,713,3686,627,3351,2811,2071,1094,1947,1173,1348,2447,3033,2001,1068,1531,3210,69,3008,2467,2680,662,2105,17>>],
-   bytes |-> 66]
+   bytes |-> 66,
+   k |-> 521,
+   c |-> <<1>>,
+   cs |-> 0,
+   c0 |-> <<>>]
 EcEd25519 ==
   [name |-> "Ed25519",
    kind |-> "ed",
@@ -298,7 +341,9 @@ EcEd25519 ==
    G |-> [x |-> <<1306,605,143,726,2390,2860,1447,2386,1888,716,3177,3525,3542,799,1250,3082,1022,1765,973,877,361,2>>, y |-> <<1624,1638,1638,1638,1638,1638,1638,1638,1638,1638,1638,1638,1638,1638,1638,1638,1638,1638,1638,1638,1638,6>>],
    bytes |-> 32,
    k |-> 255,
-   c |-> <<19>>]
+   c |-> <<19>>,
+   cs |-> 0,
+   c0 |-> <<>>]
 EcEd448 ==
   [name |-> "Ed448",
    kind |-> "ed",
@@ -310,7 +355,9 @@ EcEd448 ==
    G |-> [x |-> <<94,204,3015,2690,1574,2274,147,2224,225,952,323,1617,2742,3954,3610,298,1124,3386,1187,3634,2669,1662,3863,1136,1392,326,2718,877,703,2658,3349,545,3565,3792,1643,1804,3865,4>>, y |-> <<2580,783,3058,1941,2056,2777,1992,1261,812,3025,1277,924,1660,462,1023,941,727,2572,3589,2497,1912,1032,920,1738,883,3751,587,3190,1737,885,1568,2183,3108,2923,366,1127,2367,6>>],
    bytes |-> 56,
    k |-> 448,
-   c |-> <<1,0,0,0,0,0,0,0,0,0,0,0,0,0,0,0,0,0,256>>]
+   c |-> <<1,0,0,0,0,0,0,0,0,0,0,0,0,0,0,0,0,0,256>>,
+   cs |-> 224,
+   c0 |-> <<1>>]
 EcCurve25519 ==
   [name |-> "Curve25519",
    kind |-> "mt",
@@ -322,7 +369,9 @@ EcCurve25519 ==
    G |-> [x |-> <<9>>],
    bytes |-> 32,
    k |-> 255,
-   c |-> <<19>>]
+   c |-> <<19>>,
+   cs |-> 0,
+   c0 |-> <<>>]
 EcCurve448 ==
   [name |-> "Curve448",
    kind |-> "mt",
@@ -334,7 +383,9 @@ EcCurve448 ==
    G |-> [x |-> <<5>>],
    bytes |-> 56,
    k |-> 448,
-   c |-> <<1,0,0,0,0,0,0,0,0,0,0,0,0,0,0,0,0,0,256>>]
+   c |-> <<1,0,0,0,0,0,0,0,0,0,0,0,0,0,0,0,0,0,256>>,
+   cs |-> 224,
+   c0 |-> <<1>>]
 EcCurveNames == {"secp112r1", "secp128r1", "P-192", "P-224", "P-256", "P-384", "P-521", "Ed25519", "Ed448", "Curve25519", "Curve448"}
 EcCurve(name) ==
   CASE name = "secp112r1" -> EcSecp112r1
@@ -353,7 +404,7 @@ EcCurve(name) ==
 \* p = 2^k - c where both are given; a = p - 3 on the Weierstrass curves; b # 0 (so (0,0) is not on the curve); n < 2^(8 bytes)
 ASSUME \A nm \in EcCurveNames : LET C == EcCurve(nm) IN /\ C.name = nm /\ BnIsNat(C.p) /\ BnIsNat(C.n) /\ BnIsOdd(C.p) /\ BnIsOdd(C.n)
           /\ (C.kind = "ws" => C.a = BnSub(C.p, <<3>>) /\ C.b # <<>> /\ EcIsElem(C.b, C.p))
-          /\ (C.kind # "ws" => C.p = BnSub(BnPow2(C.k), C.c))
+          /\ (C.kind # "ws" => C.k > 0) /\ (C.k > 0 => C.p = BnSub(BnPow2(C.k), C.c) /\ (C.cs > 0 => C.c = BnAdd(BnPow2(C.cs), C.c0) /\ Len(C.c0) = 1))
           /\ (C.kind = "ed" => EcIsElem(C.d, C.p))
           /\ BnBitLen(C.p) <= 8 * C.bytes /\ BnBitLen(C.p) > 8 * (C.bytes - 1) - 8
 \* every generator satisfies its curve equation (reduction by long division, no witness)
@@ -368,6 +419,8 @@ ASSUME LET C == EcEd25519  x == <<442,2722,1554,1793,3039,336,3173,64,1859,367,2
 ASSUME LET C == EcEd25519 IN EcRed(C, C.p) = <<>> /\ EcRed(C, BnAdd(C.p, <<5>>)) = <<5>> /\ EcRed(C, BnSub(BnSqr(C.p), <<1>>)) = BnSub(C.p, <<1>>) /\ EcRed(C, BnSub(BnPow2(2 * C.k), <<1>>)) = EcModSlow(BnSub(BnPow2(2 * C.k), <<1>>), C.p)
 ASSUME LET C == EcEd448  x == <<3558,2279,3034,1876,2503,643,3260,526,1305,1353,1456,3229,4010,3739,3087,1674,2414,3453,4019,3417,3445,1984,1879,2948,100,1280,2127,2471,1833,603,3183,2225,3559,2455,156,2349,2175,1053,2675,823,3748,2034,2964,314,2559,2425,615,3137,580,2009,1907,2502,593,1003,2035,668,3142,2023,817,892,3993,3469,2564,3249,36,3831,1567,2885,1585,2744,902,1323,3512,160,11>> IN EcRed(C, x) = <<3438,2166,831,3515,3551,2762,1492,2144,3285,1382,148,263,2394,4043,306,1755,2661,2717,3560,1046,1005,2666,2293,191,3522,2097,2431,3621,2842,363,3434,175,1958,1314,4084,2583,2139,1>> /\ EcModSlow(x, C.p) = EcRed(C, x) /\ EcModQ(x, C.p, <<3976,3982,1892,1638,1048,2119,2328,1617,1980,29,2788,1129,2479,303,1315,80,247,3360,1588,1988,382,3123,2359,3577,1240,416,1227,1794,4079,1377,436,2147,1707,2872,2130,219,2826>>) = <<TRUE, EcRed(C, x)>> /\ ~EcModQ(x, C.p, <<3977,3982,1892,1638,1048,2119,2328,1617,1980,29,2788,1129,2479,303,1315,80,247,3360,1588,1988,382,3123,2359,3577,1240,416,1227,1794,4079,1377,436,2147,1707,2872,2130,219,2826>>)[1]
 ASSUME LET C == EcEd448 IN EcRed(C, C.p) = <<>> /\ EcRed(C, BnAdd(C.p, <<5>>)) = <<5>> /\ EcRed(C, BnSub(BnSqr(C.p), <<1>>)) = BnSub(C.p, <<1>>) /\ EcRed(C, BnSub(BnPow2(2 * C.k), <<1>>)) = EcModSlow(BnSub(BnPow2(2 * C.k), <<1>>), C.p)
+ASSUME LET C == EcP521  x == <<3513,1034,2880,1995,3361,2819,3143,1376,580,1868,2563,1848,3172,1126,3262,3834,111,1074,738,3001,2946,1029,3562,3682,1037,3817,2032,2356,726,111,3503,2261,784,728,576,2427,2333,1886,59,3017,667,871,3334,2291,2780,3500,4093,365,2003,2974,2605,3647,3682,3528,2696,1543,1705,90,1454,2744,3021,1607,3584,3036,275,1298,1989,2580,3788,2956,1237,716,1861,2845,2153,3350,3858,3482,3557,439,3220,3129,396,426,1617,690,51>> IN EcRed(C, x) = <<3072,2657,2605,3787,1708,2626,804,1330,950,3007,3697,2828,276,412,961,2856,1861,2064,788,2601,1377,3342,146,2209,2654,1375,717,3931,1388,3881,647,1049,3193,80,1325,1386,811,1091,1693,213,2857,3225,1691,21>> /\ EcModSlow(x, C.p) = EcRed(C, x) /\ EcModQ(x, C.p, <<3655,1622,3821,1791,2443,3902,1756,4049,369,1139,1134,980,1200,3381,1794,3117,1749,990,50,3696,2526,2312,680,2622,1616,1654,2780,1574,662,3770,1240,2883,2408,3448,748,3055,2573,3300,1633,1292,2189,2354,2453,1>>) = <<TRUE, EcRed(C, x)>> /\ ~EcModQ(x, C.p, <<3656,1622,3821,1791,2443,3902,1756,4049,369,1139,1134,980,1200,3381,1794,3117,1749,990,50,3696,2526,2312,680,2622,1616,1654,2780,1574,662,3770,1240,2883,2408,3448,748,3055,2573,3300,1633,1292,2189,2354,2453,1>>)[1]
+ASSUME LET C == EcP521 IN EcRed(C, C.p) = <<>> /\ EcRed(C, BnAdd(C.p, <<5>>)) = <<5>> /\ EcRed(C, BnSub(BnSqr(C.p), <<1>>)) = BnSub(C.p, <<1>>) /\ EcRed(C, BnSub(BnPow2(2 * C.k), <<1>>)) = EcModSlow(BnSub(BnPow2(2 * C.k), <<1>>), C.p)
 \* Weierstrass: 2G, 3G = 2G + G, G + (-G), G + O on secp112r1 and P-256 (values and witnesses from independent affine arithmetic in Python);
 \* a falsified result "differs", a falsified witness is "witness" and never "ok"
 ASSUME LET C == EcSecp112r1  G2 == [x |-> <<1878,813,3008,3808,0,792,249,1322,1999,5>>, y |-> <<108,496,1856,2257,890,4085,3004,3587,174,6>>]  G3 == [x |-> <<664,3953,3371,679,3676,3123,1151,3636,4033,12>>, y |-> <<3255,707,3954,2922,1962,2718,752,2755,3030,5>>] IN
@@ -397,14 +450,14 @@ ASSUME LET C == EcEd25519  G2 == [x |-> <<3598,1084,3624,2580,965,1528,1956,349,
    /\ EcSum(C, C.G, EcNeg(C, C.G), EcNeutral(C), W) = "ok" /\ EcSum(C, C.G, EcNeutral(C), C.G, W) = "ok" /\ EcSum(C, EcNeutral(C), EcNeutral(C), EcNeutral(C), W) = "ok"
    /\ EcSum(C, T2, T2, EcNeutral(C), W) = "ok" /\ EcSum(C, T4, T4, T2, W) = "ok" /\ EcSum(C, T4, T2, EcNeg(C, T4), W) = "ok" /\ EcSum(C, T4, T4, EcNeutral(C), W) = "differs"
    /\ EcOnCurve(C, G3, W) = "ok" /\ EcOnCurve(C, T2, W) = "ok" /\ EcOnCurve(C, T4, W) = "ok" /\ EcOnCurve(C, EcNeutral(C), W) = "ok" /\ EcOnCurve(C, [G3 EXCEPT !.x = BnXor(@, <<1>>)], W) = "no"
-   /\ EcNeg(C, G3) = [x |-> <<3473,113,44,2938,925,1941,3511,2025,2022,3014,1436,892,293,2236,2897,3584,182,1751,1501,1595,2129,1>>, y |-> <<1236,3931,2168,1668,707,64,1027,1650,3095,366,1951,2543,38,2278,1697,2578,2475,3814,375,2845,615,1>>] /\ EcNeg(C, T2) = T2
+   /\ EcNeg(C, G3) = [x |-> <<3473,113,44,2938,925,1941,3511,2025,2022,3014,1436,892,293,2236,2897,3584,182,1751,1501,1595,2129,1>>, y |-> <<1236,3931,2168,1668,707,64,1027,1650,3095,366,1951,2543,38,2278,1697,2578,2475,3814,375,2845,615,1>>] /\ EcNeg(C, T2) = T2 /\ EcEdLowOrder(C, T2) /\ EcEdLowOrder(C, T4) /\ EcEdLowOrder(C, EcNeutral(C)) /\ ~EcEdLowOrder(C, G3) /\ ~EcEdLowOrder(C, C.G)
 ASSUME LET C == EcEd448  G2 == [x |-> <<1365,1365,1365,1365,1365,1365,1365,1365,1365,1365,1365,1365,1365,1365,1365,1365,1365,1365,2389,2730,2730,2730,2730,2730,2730,2730,2730,2730,2730,2730,2730,2730,2730,2730,2730,2730,2730,10>>, y |-> <<1773,2360,3562,4028,2794,1725,3488,3356,702,3019,2235,777,2602,2099,1381,214,1208,3468,650,1751,2019,3451,2125,856,1952,1773,3,3115,134,517,2518,2869,1165,3440,842,3734,3589,10>>]  G3 == [x |-> <<3983,4082,646,371,1832,1397,3496,1125,1897,1579,1768,509,1575,3967,2507,3498,4072,1020,2634,119,698,3198,2690,2253,2955,577,818,2371,3254,790,3428,1371,3940,138,2961,2182,2149>>, y |-> <<1788,2285,856,2753,2082,2811,45,4077,2664,4009,191,1663,2919,445,2611,2995,3416,1249,748,968,3300,2975,1731,565,3477,1192,1178,2660,1082,1965,3034,108,3319,293,3029,2701,5,14>>]  T2 == [x |-> <<>>, y |-> <<4094,4095,4095,4095,4095,4095,4095,4095,4095,4095,4095,4095,4095,4095,4095,4095,4095,4095,3839,4095,4095,4095,4095,4095,4095,4095,4095,4095,4095,4095,4095,4095,4095,4095,4095,4095,4095,15>>]  T4 == [x |-> <<1>>, y |-> <<>>]  W == EcNoWitness IN
    /\ EcSum(C, C.G, C.G, G2, W) = "ok" /\ EcSum(C, G2, C.G, G3, W) = "ok" /\ EcSum(C, C.G, G2, G3, W) = "ok"
    /\ EcSum(C, G2, C.G, [G3 EXCEPT !.x = BnXor(@, <<1>>)], W) = "differs" /\ EcSum(C, G2, C.G, [G3 EXCEPT !.y = BnXor(@, <<0, 64>>)], W) = "differs"
    /\ EcSum(C, C.G, EcNeg(C, C.G), EcNeutral(C), W) = "ok" /\ EcSum(C, C.G, EcNeutral(C), C.G, W) = "ok" /\ EcSum(C, EcNeutral(C), EcNeutral(C), EcNeutral(C), W) = "ok"
    /\ EcSum(C, T2, T2, EcNeutral(C), W) = "ok" /\ EcSum(C, T4, T4, T2, W) = "ok" /\ EcSum(C, T4, T2, EcNeg(C, T4), W) = "ok" /\ EcSum(C, T4, T4, EcNeutral(C), W) = "differs"
    /\ EcOnCurve(C, G3, W) = "ok" /\ EcOnCurve(C, T2, W) = "ok" /\ EcOnCurve(C, T4, W) = "ok" /\ EcOnCurve(C, EcNeutral(C), W) = "ok" /\ EcOnCurve(C, [G3 EXCEPT !.x = BnXor(@, <<1>>)], W) = "no"
-   /\ EcNeg(C, G3) = [x |-> <<112,13,3449,3724,2263,2698,599,2970,2198,2516,2327,3586,2520,128,1588,597,23,3075,1205,3976,3397,897,1405,1842,1140,3518,3277,1724,841,3305,667,2724,155,3957,1134,1913,1946,15>>, y |-> <<1788,2285,856,2753,2082,2811,45,4077,2664,4009,191,1663,2919,445,2611,2995,3416,1249,748,968,3300,2975,1731,565,3477,1192,1178,2660,1082,1965,3034,108,3319,293,3029,2701,5,14>>] /\ EcNeg(C, T2) = T2
+   /\ EcNeg(C, G3) = [x |-> <<112,13,3449,3724,2263,2698,599,2970,2198,2516,2327,3586,2520,128,1588,597,23,3075,1205,3976,3397,897,1405,1842,1140,3518,3277,1724,841,3305,667,2724,155,3957,1134,1913,1946,15>>, y |-> <<1788,2285,856,2753,2082,2811,45,4077,2664,4009,191,1663,2919,445,2611,2995,3416,1249,748,968,3300,2975,1731,565,3477,1192,1178,2660,1082,1965,3034,108,3319,293,3029,2701,5,14>>] /\ EcNeg(C, T2) = T2 /\ EcEdLowOrder(C, T2) /\ EcEdLowOrder(C, T4) /\ EcEdLowOrder(C, EcNeutral(C)) /\ ~EcEdLowOrder(C, G3) /\ ~EcEdLowOrder(C, C.G)
 \* scalar multiplication by links (the orders are certified in ECGroupKat): 0, 1, 2, 3, 181 = 10110101b times G on secp112r1 and Ed25519;
 \* a chain of the wrong length, a falsified intermediate point, a falsified witness
 EcSecp112r1Links181 ==
